@@ -266,4 +266,30 @@ example :
     specError (reach Cfg.fixed demo) (.complete "o" "s" 1 none false "") = some (.failedPrecondition, .handled) := by
   decide
 
+/-! ### CreateTrial of a trial evaluated elsewhere (warm start) -/
+
+/-- `CreateTrial` of a trial given as completed keeps it completed — SUCCEEDED and (repaired code) INFEASIBLE
+    alike — under a fresh id; every other state waits in the REQUESTED pool.  Any study, any trial. -/
+theorem c01_create_trial_keeps_completed (cfg : Cfg) (hk : cfg.createKeepsInfeasible = true) (st : Study) (t : Trial) :
+    let t' := { t with id := st.maxTrialId + 1, client := "",
+                       state := if t.state == .succeeded || t.state == .infeasible then t.state else .requested }
+    createTrialBody cfg.createKeepsInfeasible st t = (.trial t', st.addTrial t') := by
+  rw [hk]
+  cases h : t.state <;> simp [createTrialBody, h]
+
+def infeasibleWarmStart : Trial :=
+  { id := 0, state := .infeasible, client := "", params := 3, meas := [], final := none, reason := "crashed", md := [] }
+
+/-- the pinned commit kept only SUCCEEDED: an INFEASIBLE trial added for warm-starting lands in the REQUESTED
+    pool and the next SuggestTrials hands it to a worker for evaluation -/
+theorem c01_create_trial_infeasible_counterexample :
+    let cfg := { Cfg.fixed with createKeepsInfeasible := false }
+    let db := run cfg DB.empty [ .createStudy "o" "s" false .active 0 [], .createTrial "o" "s" infeasibleWarmStart ]
+    db.studies.map (fun st => st.trials.map (·.state)) = [[.requested]] ∧
+    ((step cfg db (.suggest "o" "s" "w" 1 (.suggestions [⟨9, []⟩] []))).2.studies.map fun st => st.trials.map fun t => (t.state, t.client, t.params))
+      = [[(.active, "w", 3)]] ∧
+    (run Cfg.fixed DB.empty [ .createStudy "o" "s" false .active 0 [], .createTrial "o" "s" infeasibleWarmStart ]).studies.map
+      (fun st => st.trials.map (·.state)) = [[.infeasible]] := by
+  decide
+
 end VizierModel.C01
